@@ -242,7 +242,7 @@ def gen_dissolved(rng, quick, decay=False):
 
 
 def gen_dnd(rng, quick, decay=False):
-    dt = gen_dt(rng); n = gen_n(rng, quick, allow0=False)
+    dt = gen_dt(rng); n = gen_n(rng, quick)
     q, v, reg = gen_hydro(rng, n, dt)
     do = rng.choice([0.5, 1.0]) if decay else rng.choice([0.0, 0.0, 0.49])
     p = [do, rng.choice([0.0, logu(rng, 1, 1e6)]), rng.uniform(0.5, 10), logu(rng, 1, 200), logu(rng, 100, 1e5),
@@ -329,13 +329,14 @@ def oracle_case(c, orc, idx, case, ri, traj):
     base = case.brief()
     base['case_line'] = case.line()
     if ri[0] != 'OK':
-        if m == 'StorageTrapAll' and n == 0:
-            orc.hit(m, 'empty-series-panics')
-            return True        # indexing element 0 of an empty series; degenerate period, reported as an observation
         c.violation(name, dict(base, kind='crash-on-valid-input', impl=ri[0]))
         return False
     outs, final = ri[1], ri[2]
     ok = True
+    if n == 0 and (list(final) != initial_stock_states(case) or any(len(r) for r in outs)):
+        # an empty period: nothing enters, nothing leaves, every stored mass is carried unchanged
+        c.violation(name, dict(base, kind='empty-series-changes-state', final_states=final, outputs=outs))
+        return False
     # ---- NaN / Inf anywhere in outputs or states
     flat = [x for r in outs for x in r] + list(final)
     if any(isbad(x) for x in flat):
@@ -471,6 +472,11 @@ def corpus_cases():
     cs.append(Case('StorageParticulateTrapping', [D, 1e6, 0, 112, 800, 1.0, 0.5], [10.0], [[1.0], [1.0], [0.0], [0.0]], D, regime='corpus'))  # = trapping_empty_reservoir_keeps_mass (Coq, float instance)
     # round-off negative store (= decay_roundoff_negative_refuted)
     cs.append(Case('ConstituentDecay', [0.0, 0.0, D], [0.0], [[0.3], [0.0], [3.0], [3.0], [0.0]], D, regime='corpus'))
+    # (fixed b73cc97) empty series: StorageTrapAll and InstreamDissolvedNutrientDecay indexed element 0 and killed the process;
+    # now: no output, stored mass carried unchanged
+    cs.append(Case('StorageTrapAll', [], [5.0], [[], [], [], []], DEFAULT_DT, regime='corpus-empty'))
+    cs.append(Case('InstreamDissolvedNutrientDecay', [0.0, 100.0, 1, 1, 1, 1, D], [7.0], [[], [], [], [], []], D, regime='corpus-empty'))
+    cs.append(Case('InstreamDissolvedNutrientDecay', [1.0, 100.0, 1, 1, 1, 1, D], [7.0], [[], [], [], [], []], D, regime='corpus-empty', decay=True))
     # trap-all: kg/s copied into kg
     cs.append(Case('StorageTrapAll', [], [5.0], [[1.0, 2.0], [0, 0], [0, 0], [0, 0]], DEFAULT_DT, regime='corpus'))
     return cs
